@@ -35,14 +35,20 @@ def random_cfg(rng, family=None, n_max=10):
                    mean="constant", lik="multitask")
         if rng.random() < 0.4:
             cfg.update(batch="data", b=rng.randint(2, 3))
+        elif rng.random() < 0.5:
+            # task-major (non-interleaved) function distribution: covariance B (x) K_x, `interleaved=False`
+            cfg.update(il=False, ilform=rng.choice(["dense", "kron"]))
     else:
         cfg.update(n=rng.randint(1, n_max), d=rng.randint(1, 3), kernel=rng.choice(KERNELS), mean=rng.choice(MEANS),
                    lik=rng.choice(LIKS), batch=rng.choice(BATCH), b=rng.randint(2, 3), t=1)
         if cfg["batch"] == "none":
             cfg["b"] = 0
         if family == "sgpr":
+            # `nest`: how the InducingPointKernel (which registers the added-loss term) is reachable from the model —
+            # directly, under a gpytorch module (ScaleKernel), or only through a torch container (the ModuleList of an
+            # Additive / Product kernel, possibly one level deeper)
             cfg.update(lik="gaussian", m=rng.randint(1, 4), kernel=rng.choice(["rbf", "scale(rbf)", "matern2.5"]),
-                       n=rng.randint(2, n_max))
+                       n=rng.randint(2, n_max), nest=rng.choice(["plain", "scale", "sum", "product", "scale(sum)", "sum"]))
     # priors: each site independently, with probability 1/2 (at least one in 3 of 4 cases)
     pri = []
     for site in PRIOR_SITES:
@@ -174,10 +180,12 @@ def build(cfg, shared=None):
     w.cfg = cfg
     n, d, fam = cfg["n"], cfg["d"], cfg["family"]
     b = cfg["b"]
-    pb = (b,) if cfg["batch"] == "model" else ()
-    xb = (b,) if cfg["batch"] == "data" else ()
-    yb = (b,) if cfg["batch"] in ("model", "data") else ()
+    bs = tuple(cfg.get("bshape") or ([b] if b else []))      # batch shape (several batch dimensions: cfg["bshape"])
+    pb = bs if cfg["batch"] == "model" else ()
+    xb = bs if cfg["batch"] == "data" else ()
+    yb = bs if cfg["batch"] in ("model", "data") else ()
     w.batch = yb
+    w.il = cfg.get("il", True)
     with warnings.catch_warnings():
         warnings.simplefilter("ignore")
         train_x = _pos(torch, gen, (*xb, n, d), -1.5, 1.5)
@@ -200,13 +208,26 @@ def build(cfg, shared=None):
                     lik.task_noise_covar_factor.copy_(_pos(torch, gen, (t, cfg["lrank"]), -0.6, 0.6))
             train_y = _pos(torch, gen, (*yb, n, t), -1.5, 1.5)
 
+            il, ilform = w.il, cfg.get("ilform", "dense")
+
             class GP(gpytorch.models.ExactGP):
                 def __init__(s):
                     super().__init__(train_x, train_y, lik)
                     s.mean_module, s.covar_module = mean, covar
 
                 def forward(s, x):
-                    return gpytorch.distributions.MultitaskMultivariateNormal(s.mean_module(x), s.covar_module(x))
+                    if il:
+                        return gpytorch.distributions.MultitaskMultivariateNormal(s.mean_module(x), s.covar_module(x))
+                    # task-major layout: flat index = task * n + point, covariance B (x) K_x
+                    from linear_operator.operators import KroneckerProductLinearOperator
+                    from linear_operator import to_linear_operator
+                    Kx = s.covar_module.data_covar_module(x).to_dense()
+                    B = s.covar_module.task_covar_module.covar_matrix.to_dense()
+                    if ilform == "kron":
+                        cov = KroneckerProductLinearOperator(to_linear_operator(B), to_linear_operator(Kx))
+                    else:
+                        cov = torch.kron(B, Kx)
+                    return gpytorch.distributions.MultitaskMultivariateNormal(s.mean_module(x), cov, interleaved=False)
         else:
             covar = _kernel(torch, K, gen, cfg["kernel"], d, pb)
             mean = _mean(torch, M, gen, cfg["mean"], d, pb)
@@ -223,6 +244,24 @@ def build(cfg, shared=None):
             if fam == "sgpr":
                 Z = _pos(torch, gen, (cfg["m"], d), -1.5, 1.5)
                 covar = K.InducingPointKernel(covar, inducing_points=Z, likelihood=lik)
+                nest = cfg.get("nest", "plain")
+
+                def other():
+                    k2 = K.LinearKernel(batch_shape=torch.Size(pb))
+                    k2.variance = _pos(torch, gen, (*pb, 1, 1), 0.3, 1.0)
+                    return k2
+                if nest == "scale":
+                    covar = K.ScaleKernel(covar, batch_shape=torch.Size(pb))
+                    covar.outputscale = _pos(torch, gen, tuple(pb), 0.5, 2.0)
+                elif nest == "sum":
+                    covar = covar + other()                       # AdditiveKernel: kernels live in a torch ModuleList
+                elif nest == "product":
+                    k2 = K.RBFKernel(batch_shape=torch.Size(pb))
+                    k2.lengthscale = _pos(torch, gen, (*pb, 1, 1), 1.0, 2.5)
+                    covar = covar * k2                            # ProductKernel: ModuleList
+                elif nest == "scale(sum)":
+                    covar = K.ScaleKernel(covar + other(), batch_shape=torch.Size(pb))
+                    covar.outputscale = _pos(torch, gen, tuple(pb), 0.5, 2.0)
             train_y = _pos(torch, gen, (*yb, n), -1.5, 1.5)
 
             class GP(gpytorch.models.ExactGP):
@@ -281,9 +320,10 @@ def build(cfg, shared=None):
     return w
 
 
-def noise_dense(w):
+def noise_dense(w, call_noise=None):
     """The documented noise covariance [*batch, N, N] from the likelihood's public parameters (with autograd
-    graph); independent of `marginal` / `_shaped_noise_covar`."""
+    graph); independent of `marginal` / `_shaped_noise_covar`.  `call_noise`: a call-time `noise=` tensor (FixedNoise
+    likelihoods: replaces the stored noise, the learned noise is still added)."""
     import torch
     import gpytorch.likelihoods as L
     lik, n = w.lik, w.cfg["n"]
@@ -296,10 +336,28 @@ def noise_dense(w):
             F = lik.task_noise_covar_factor
             D = F @ F.transpose(-1, -2)
         D = D + lik.noise.reshape(()) * torch.eye(t, dtype=torch.float64)
-        return torch.kron(eye, D)     # interleaved: index = point·t + task
+        if getattr(w, "il", True):
+            return torch.kron(eye, D)     # interleaved: index = point·t + task
+        return torch.kron(D, eye)         # task-major: index = task·n + point
     if isinstance(lik, L.FixedNoiseGaussianLikelihood):
-        S = torch.diag_embed(lik.noise_covar.noise)
+        S = torch.diag_embed(lik.noise_covar.noise if call_noise is None else call_noise)
         if lik.second_noise_covar is not None:
             S = S + lik.second_noise_covar.noise.unsqueeze(-1) * eye
         return S
+    if call_noise is not None:            # GaussianLikelihood: a call-time noise tensor is used directly
+        return torch.diag_embed(call_noise)
     return lik.noise.unsqueeze(-1) * eye
+
+
+def registered_added_loss_terms(model):
+    """Every registered added-loss term, found by walking torch's module tree (`model.modules()`) and reading each
+    module's own registry — independent of gpytorch's `named_added_loss_terms` recursion."""
+    seen, out = set(), []
+    for mod in model.modules():
+        reg = getattr(mod, "_added_loss_terms", None)
+        if reg:
+            for term in reg.values():
+                if term is not None and id(term) not in seen:
+                    seen.add(id(term))
+                    out.append(term)
+    return out
